@@ -76,6 +76,24 @@ def observe(c):
             pass
         del CAPPED[n0:]           # the unrelated runs may be cut short: they are only history
     runs.append(["after_other_simulations", _drive(e1, script)[1], True])
+    # after a sibling: the same space, the same numbers of species, reactions and environments, other stoichiometries and constants
+    # (whatever an engine keeps between set-ups keyed on sizes alone would survive into the next run)
+    import copy
+    sib = copy.deepcopy(c)
+    labels = [sp["label"] for sp in sib["desc"]["species"]]
+    for r in sib["desc"]["reactions"]:
+        a, b = rng.choice(labels), rng.choice(labels)
+        r["sub"], r["prod"] = {a: rng.choice([0, 2, 3])} if rng.random() < 0.7 else {a: 1, b: 1} if a != b else {a: 2}, {b: rng.choice([1, 2])}
+        for key in ("kf", "kr"):
+            r[key] = {"scalar": {"v": rng.choice([0.0, 0.25, 1.0, 3.0]), "sys": ["µm", "s", "molecule"]}}
+    sib["seed"] = rng.randrange(2 ** 31)
+    n0 = len(CAPPED)
+    try:
+        _drive(engine_build.engine(kind), trajgen.build_script(strengths, sib), max_iter=300)
+    except Exception:
+        pass
+    del CAPPED[n0:]
+    runs.append(["after_sibling_simulation", _drive(engine_build.engine(kind), script)[1], True])
     # random partitions of the loop into iterate / iterate_n(k) / run(ms)
     for k in range(3):
         runs.append(["schedule_%d" % k, _drive(engine_build.engine(kind), script, sched_rng=random.Random(rng.randrange(2 ** 30)))[1], True])
@@ -139,8 +157,8 @@ def oracle(it):
 
 def build_items(cases, run=None):
     engine_build.build(False)
-    obs = child.map_children("c08", "observe", cases, timeout=60)
-    obs2 = child.map_children("c08", "observe", cases, timeout=60)      # fresh processes again: process independence
+    obs = child.map_children("c08", "observe", cases, timeout=15)
+    obs2 = child.map_children("c08", "observe", cases, timeout=15)      # fresh processes again: process independence
     items = []
     for c, o, o2 in zip(cases, obs, obs2):
         if any(k in o for k in ("timeout", "crash", "nonfinite")) or any(k in o2 for k in ("timeout", "crash", "nonfinite")):
@@ -164,7 +182,7 @@ def build_items(cases, run=None):
 def check(run):
     rng = random.Random(run.seed)
     sysgen.POOLS["space"] = ["cm", "mm", "dmm", "cmm", "µm", "nm", "dm"]
-    n = 60 if run.tier == "quick" else 300
+    n = 120 if run.tier == "quick" else 400
     cases = [make_case(rng, run.tier) for _ in range(n)]
     items = build_items(cases, run)
     for it in items:
@@ -176,7 +194,7 @@ def check(run):
             run.count("run:" + label.split("_")[0] + (":must_differ" if not eq else ""))
     run.rule = ("random scripts (three engines, grid / graph, four policies, init_state_processing none / auto / redist / Poisson) executed in one "
                 "child process: reference = plain iterate() loop; then the same again on the same object, on another object, after 1-3 unrelated "
-                "simulations of random kinds, under three random partitions into iterate / iterate_n(k, incl. 0) / run(0,1,3 ms), from the "
+                "simulations of random kinds, after a sibling simulation (same space and table sizes, other stoichiometries and constants), under three random partitions into iterate / iterate_n(k, incl. 0) / run(0,1,3 ms), from the "
                 "script stored in the reference trajectory, from a script with rng_seed=None and then from the script stored by that run, "
                 "with another seed (Euler: must be identical; Gillespie with >= 2 recorded events: must differ), and once more in a fresh "
                 "process. Times and data compared bit for bit (exact rationals in Coq; of trajectories longer than 3000 numbers the first and "
